@@ -42,31 +42,25 @@ def run(ctx):
     n_hit_src = 0
     # recording functions: local non-API functions from which an access buffer's lock is reachable (mark_key_accessed,
     # Pool::add ...); opaque in the symbolic paths, so the first one met on a path is one access record
+    # = the functions that take a buffer lock themselves, and their unconditional forwarders (straight-line functions that
+    # call exactly one recording function); a helper that records *conditionally* is not one: it is inlined and judged
     rec_fns = set()
     for n, g in F.fns.items():
         if n in read_names or g.kind == "Closure":
             continue
-        hit = False
-        for nid in F.insts_of(n):
-            # through the functions it calls itself (not through a closure its caller handed in: a generic
-            # `with_check(|| ..)` helper records nothing on its own)
-            seen_, work_ = set(), [nid]
-            while work_:
-                m = work_.pop()
-                if m in seen_ or F.def_of(m) in read_names:
-                    continue
-                seen_.add(m)
-                if any(kind == "acquire" and what == "PB" for bb2, kind, what, c2 in F.direct_effects(m)):
-                    hit = True
-                for bb2, k2, tgt2, c2 in F.inst_edges(m):
-                    if k2 != "local":
-                        continue
-                    tf = F.fn(F.def_of(tgt2))
-                    if tf is not None and tf.kind == "Closure" and not tf.name.startswith(F.def_of(m) + "::"):
-                        continue        # a closure written elsewhere: it reached this function as an argument
-                    work_.append(tgt2)
-        if hit:
+        if any(__import__("core").lock_call(t) in (("write", "PB"), ("read", "PB")) for b, t in g.calls()):
             rec_fns.add(n)
+    grew = True
+    while grew:
+        grew = False
+        for n, g in F.fns.items():
+            if n in rec_fns or n in read_names or g.kind == "Closure":
+                continue
+            if any(g.term(b)["k"] == "switch" for b in g.live_blocks()):
+                continue
+            if len([1 for b, t in g.calls() if t.get("rpath") in rec_fns]) == 1:
+                rec_fns.add(n)
+                grew = True
     for f in reads:
         stop = lambda n, me=f.name: n in rec_fns or (n in read_names and n != me)
         paths = ipaths(F, f, stop=stop, depth=2)
